@@ -104,6 +104,16 @@ def run(ctx):
             s = s.replace("\n  0\n}\nf()\nprintln(string_repr(v%d))\n" % p,
                           "\n  println(string_repr(v%d))\n  0\n}\nf()\n" % p)
             extra.append(((n, e, "in-fun-probe", p), s))
+    # the BINDERS of the constructs (loop variable, destructured loop variables, match binder, the `let` of the
+    # branch not taken) are block-local too: probe them after the construct (seeded C06-2 bound the variables of
+    # `for (a, b) in` in the enclosing block)
+    binder = {"for": ["x%d"], "forT": ["p%d", "q%d"], "match": ["m%d", "u%d"], "ifelse": ["u%d"]}
+    for (n, e, f, p), s in zip(cases, srcs):
+        for b in binder.get(n[p], []):
+            name = b % p
+            tail = "println(string_repr(v%d))\n" % p
+            if s.endswith(tail):
+                extra.append(((n, e, "binder-probe:" + name, p), s[:-len(tail)] + "println(string_repr(%s))\n" % name))
     all_cases = [(c, s) for c, s in zip(cases, srcs)] + extra
     ctx.rule = ("all nestings of {while, for, for-with-tuple-destructuring, if, if/else, match arm} to depth %d, a `let` "
                 "at every level, exit statement {none, break, continue, return} at the innermost level, at toplevel and "
@@ -123,10 +133,12 @@ def run(ctx):
             ctx.fail("C06/crash", "evaluator crashed: %s" % i.get("raw"), src=src)
             continue
         want = "no-such-variable v%d" % probe
+        if isinstance(where, str) and where.startswith("binder-probe:"):
+            want = "no-such-variable " + where.split(":", 1)[1]
         if not (i["kind"] == "err" and i.get("outcome") == want):
             ctx.fail("C06/leak/%s/%s" % (ex, "+".join(nesting)),
-                     "variable v%d bound inside a block is still visible after control left the block by %s "
-                     "(expected `No such variable`)" % (probe, ex if ex != "none" else "normal completion"),
+                     "variable %s bound inside a block is still visible after control left the block by %s "
+                     "(expected `No such variable`)" % (want.split()[-1], ex if ex != "none" else "normal completion"),
                      src=src, observed=[i["kind"], i.get("outcome"), i.get("out")])
         # trace oracle: whenever the toplevel frame is current and nothing block-owning is pending,
         # there is exactly one binding block
